@@ -14,6 +14,8 @@ pub struct GenCfg {
     /// mostly create_queue calls with long, unique names: metadata entries that roll files over
     /// without any record pinning them
     pub create_heavy: bool,
+    /// frequent delete_queue / re-creation of the same names (new incarnations)
+    pub churn: bool,
 }
 
 impl Default for GenCfg {
@@ -26,6 +28,7 @@ impl Default for GenCfg {
             allow_rejected: true,
             allow_persist: true,
             create_heavy: false,
+            churn: false,
         }
     }
 }
@@ -203,7 +206,8 @@ pub fn gen_op(r: &Runner, rng: &mut Rng, cfg: &GenCfg) -> Op {
         }
         return Op::Create(s);
     }
-    if w < 5 {
+    let (c_hi, d_hi) = if cfg.churn { (10, 20) } else { (5, 8) };
+    if w < c_hi {
         if nq < cfg.max_queues {
             // queues with long names make the (rare) metadata entries big enough to straddle
             // block and file boundaries: create, delete, truncate and the GC's position entries
@@ -224,7 +228,7 @@ pub fn gen_op(r: &Runner, rng: &mut Rng, cfg: &GenCfg) -> Op {
         } else {
             gen_append(r, rng, cfg, q)
         }
-    } else if w < 8 {
+    } else if w < d_hi {
         Op::Delete(q)
     } else if w < 58 {
         gen_append(r, rng, cfg, q)
